@@ -25,7 +25,8 @@ CONFIG = {
     "shards": {"quick": 8, "thorough": 16},
     "budget_s": {"quick": 150, "thorough": 1500},
     "rule": ("Hypothesis rule-based state machine over TreeList (append/insert with 'migrate' (unify on/off) and 'add', "
-             "extend/+=/+ with TreeList, slice and plain-list sources, [i]=, [i:j]=, read(newick/nexus text), new_tree, "
+             "extend/+=/+ with TreeList, slice, plain-list and self sources (self-extension under a deterministic step "
+             "budget), [i]=, [i:j]=, read(newick/nexus text, with/without collection/tree offsets), new_tree, "
              "migrate_taxon_namespace, taxon_namespace assignment + reconstruct_taxon_namespace, reconstruct/update in "
              "place, pop/remove/del), TreeArray (add_tree, read, from_tree_list), DataSet (add, read newick/nexus with "
              "TAXA/CHARACTERS/TREES blocks, new_tree_list, new_char_matrix, attach/detach, unify_taxon_namespaces) and "
@@ -42,7 +43,7 @@ CONFIG = {
                     "operations are called inside their documented preconditions; documented refusals (foreign namespace "
                     "for TreeArray.add_tree / matrix bulk operations / new_tree, foreign taxon for new_sequence and [key]=, "
                     "two rows colliding on one taxon) are expected as exactly that error",
-                    "a list is never extended with itself, trees are members of at most one tracked list",
+                    "trees are members of at most one tracked list (plain-list sources hold loose trees only)",
                     "text sources contain each leaf label at most once per tree under the namespace's case rule (the "
                     "readers refuse duplicates) and NEXUS TAXA blocks are only read through DataSet.read",
                     "in a namespace that already holds >= 2 taxa with the same label (after 'add' / unify off) any of "
@@ -779,7 +780,7 @@ class Interp(object):
         n0 = len(L.members)
         fn = L.tl.__iadd__ if a["iadd"] else L.tl.extend
         try:
-            budget.run(lambda: self.lib(fn, L.tl), 3000000)
+            budget.run(lambda: self.lib(fn, L.tl), 100000)  # >= 50x the ~1.3e3 events of a 4-tree self-extension
         except budget.HangDetected as e:
             self.V(False, "self_extension_does_not_terminate",
                    "TreeList.extend(self) still running after %d library events with %d trees in the list" % (e.count, len(L.tl)))
